@@ -165,3 +165,12 @@ PROPS['C15'] = dict(
     rule='random: 2-4 rounds; per round 1-35 / ~500 / ~2000 appended entries (by case index mod 3), then a child that is killed inside the callback of an offset chosen uniformly or next to an edge (10, 20, 500, 1000, 1500, 2000, 3000), or stopped after the last entry. Non-trivial: at least two rounds.',
     assumptions=['commit log: consecutive records from a sought offset; whole-segment truncation; mmap store survives SIGKILL'],
 )
+
+PROPS['C18'] = dict(
+    theorems=['conn_contains_failures', 'hostile_noninterference_registry', 'hostile_noninterference_state', 'hostile_noninterference_subscriptions', 'only_the_offender_is_dropped'],
+    families=[_broker([('bytes', 64, 800)])],
+    level='proof',
+    level_text='PARTIAL. Theorems (node model, the decoder being a parameter with outcomes packet/error/panic): the per-connection step has no outcome other than a model step (continue or end that session); ending a session leaves every other session\'s registry entry, all session records, the in-flight table, identifier pool, log and retained store untouched and tombstones only its own subscriptions; only a cause closes a connection. Tied to the Go code by structure-aware mutations of valid packets (truncation at every offset, type and flag nibbles incl. QoS 3, remaining-length corruption incl. a fifth length byte, inner length prefixes, identifier 0, empty topic lists) before and after CONNECT against a real node, with a witness publisher/subscriber that must keep working after every hostile step; what the decoder makes of each frame is found by running the same decoder on the same bytes. A process crash is reported with the input that was running.',
+    level_note='Not covered: memory and latency stalls (256 MiB remaining length allocated before any read; 20 set-up workers held for 3 s each) - runtime behaviour the model cannot exhibit; lengths in the harness are bounded. The decoder (vx-labs/mqtt-protocol) is a dependency and is assumed, not modelled. ' + _E2E_NOTE,
+    rule='bytes: a witness pair, a victim session with subscriptions and a will; 4-11 hostile frames (mutated from 17 valid packets) sent on the victim or as the first packet of a fresh connection, each followed by a witness publish; victims are replaced when they die.',
+)
